@@ -10,12 +10,21 @@ import (
 )
 
 func runScript(x Inst, calls []Call) {
+	defer func() { fpSkip = false }()
 	pre, bad := safeObserve(x)
 	if bad {
 		return
 	}
 	rs := 1
-	for _, c := range calls {
+	for i, c := range calls {
+		if c.Op == "@full" { // from here on complete observations (the next call must be a mutator: its post state is compared with nothing earlier)
+			if m, ok := x.(*mapInst); ok {
+				m.lite = false
+			}
+			continue
+		}
+		// long scripts: the deep fingerprints (three per call) of every 8th mutating call and of every read-only call
+		fpSkip = len(calls) > 400 && x.Mutates(c.Op) && i%8 != 0
 		var post Ev
 		if rs == 1 {
 			post = step(x, c, 1, pre, nil)
